@@ -11,6 +11,8 @@ from fractions import Fraction
 
 from vlib.core import SRC, TranslatorRefusal
 
+SETUP = True
+
 SCALE = 12
 NSHARDS = 12
 
